@@ -19,6 +19,7 @@ from copy import deepcopy
 
 from numpy import allclose
 
+from .multi_domain import MultiDomain
 from .multi_field import MultiField
 from .operators.operator import _OpChain, _OpProd, _OpSum
 from .operators.simple_linear_operators import FieldAdapter
@@ -234,6 +235,9 @@ def _optimise_operator(op):
     get_duplicate_keys(key_list_node, id_dic)
 
     for key in key_list_node:
+        if isinstance(nodes[id_dic[key][0]][0].target, MultiDomain):
+            # A placeholder (FieldAdapter) can only stand for a single field
+            continue
         same_node[key] = [nodes[id_dic[key][0]][0],
                           FieldAdapter(nodes[id_dic[key][0]][0].target, next(prepend_id) + str(key))]
 
